@@ -238,6 +238,8 @@ Step(kind, w, o, w2, r) ==
                                                 b.items[k].label # w[o.j].items[k].label), "C20:assign_from")
           \* the harness changes a list it handed to the block earlier: no block may notice
           [] o.op = "poke"        -> If(w2 # w, "C20:caller_list_aliased")
+          \* the library raised while the driver was building valid items / blocks for the next call
+          [] o.op = "setup_failed" -> {"ANY:valid_input_refused"}
           \* the calls made on block i since its construction were made again, alone, on a new block:
           \* it must end up with the same labels, channels and auxiliary data - what a block becomes
           \* depends on its own history only, not on what other blocks went through meanwhile
